@@ -9,7 +9,7 @@ git -C $wt diff > $dst/patch.diff
 cp $wt/demo.py $dst/demo.py 2>/dev/null; cp $wt/DEMO.md $dst/DEMO.md 2>/dev/null
 # 1. confirm: demo on changed code exits 1, on original exits 0, test-suite passes on changed code
 ( cd $wt && PYTHONPATH=$wt/src timeout 600 /venv/bin/python $wt/demo.py > $dst/demo_changed.out 2>&1 ); rc_changed=$?
-( cd $wt && git stash -q && PYTHONPATH=$wt/src timeout 600 /venv/bin/python $wt/demo.py > $dst/demo_original.out 2>&1; echo $? > $dst/.rc_orig; git stash pop -q )
+( cd $wt && git apply -R $dst/patch.diff && PYTHONPATH=$wt/src timeout 600 /venv/bin/python $wt/demo.py > $dst/demo_original.out 2>&1; echo $? > $dst/.rc_orig; git apply $dst/patch.diff )
 rc_orig=$(cat $dst/.rc_orig); rm -f $dst/.rc_orig
 tests=$(cd $wt && PYTHONPATH=$wt/src timeout 900 /venv/bin/python -m pytest -q -p no:cacheprovider tests 2>&1 | tail -1)
 echo "confirm: demo changed rc=$rc_changed original rc=$rc_orig tests: $tests"
@@ -17,7 +17,7 @@ echo "confirm: demo changed rc=$rc_changed original rc=$rc_orig tests: $tests"
 git -C /repo apply $dst/patch.diff || { echo "patch does not apply"; exit 2; }
 res=""
 for p in "$@"; do
-  out=$(cd /verif && timeout 2400 ./check $p 2>&1 | grep -v '^KNOWN-FINDING' | tail -4)
+  out=$(cd /verif && VERIF_EVIDENCE_DIR=/tmp/seed_evidence timeout 2400 ./check $p 2>&1 | grep -v '^KNOWN-FINDING' | tail -4)
   echo "$out" | tail -3
   v=$(echo "$out" | grep -c '^VIOLATION')
   nf=$(echo "$out" | grep -c 'no-failing-input-found')
